@@ -51,7 +51,7 @@ theorem link_scheduleLoop {s : State} (hl : Link s) (hs : List Header) (f : Nat)
   induction hs generalizing f s with
   | nil => exact hl
   | cons h t ih =>
-    simp only [scheduleLoop]
+    simp only [scheduleLoop, schedOneFast_eq]
     split
     · exact hl
     · split
